@@ -6,11 +6,15 @@ package parser
 
 import (
 	"errors"
+	"strings"
 
 	"github.com/theory/sqljson/path/ast"
 )
 
-var _ ast.Node
+var (
+	_ ast.Node
+	_ strings.Builder
+)
 
 // ghost vocabulary (interpreted by govc; bodies are never executed)
 
@@ -54,7 +58,11 @@ func loopEntry[T any](x T) T                     { return x }
 func exactCmpIF(i int64, f float64) int          { return 0 }
 func errIsCtx(err error) bool                    { return false }
 func sameSlice[T any](a, b []T) bool             { return len(a) == len(b) }
+func sameVal[T any](a, b T) bool                  { return true }
 func uninterp[T any](name string, args ...any) T { var z T; return z }
+func outCount() int                              { return 0 }
+func outFirst() any                              { return nil }
+func outLast() any                               { return nil }
 
 //@ sweep safety C04 exclude=pathParserImpl,pathNewParser,pathParse,pathErrorMessage,pathlex1,pathTokname,pathStatname,pathSymType
 
@@ -160,6 +168,7 @@ func uninterp[T any](name string, args ...any) T { var z T; return z }
 //@ ensures [C03] single: !(ch == '=' && firstret[rune](l.next, 0) == '=') && ch != '>' && ch != '<' && ch != '!' && !(ch == '&' && firstret[rune](l.next, 0) == '&') && !(ch == '|' && firstret[rune](l.next, 0) == '|') && !(ch == '*' && firstret[rune](l.next, 0) == '*') ==> r0 == ch && ncalls(l.next) == 1 && r1 == firstret[rune](l.next, 0)
 
 //@ func identToken
+//@ pure
 //@ props C03
 //@ ensures [C03] null: ident == "null" ==> r0 == NULL_P
 //@ ensures [C03] true: ident == "true" ==> r0 == TRUE_P
@@ -208,3 +217,84 @@ func uninterp[T any](name string, args ...any) T { var z T; return z }
 //@ func (*lexer).Lex
 //@ props C03 C04
 //@ modifies l.*, lval.str
+//@ loop 1 invariant [C04] errors-grow: len(l.errors) >= old(len(l.errors))
+//@ loop 2 invariant [C04] errors-grow-ws: len(l.errors) >= old(len(l.errors))
+//@ ensures [C03] value-is-token-text: lval.str == callret[string](l.tokenText, 0) && ncalls(l.tokenText) == 1
+//@ ensures [C04] errors-only-grow: len(l.errors) >= old(len(l.errors))
+//@ ensures [C04] buffer-unchanged: sameSlice(l.srcBuf, old(l.srcBuf)) && l.srcEnd == old(l.srcEnd)
+
+// ---------------------------------------------------------------------------
+// escapes: what a backslash sequence appends to the string buffer depends on
+// the consumed characters only, never on the look-ahead character (C03)
+
+//@ func (*lexer).scanHex
+//@ props C03 C04
+//@ modifies l.srcPos, l.lastCharLen, l.column, l.line, l.lastLineLen, l.errors, l.tokEnd, l.strBuf
+//@ ensures [C04] stop-is-error-or-eof: r0 < 0 ==> r0 == -1
+//@ ensures [C03 C04] nul-rejected: len(l.errors) == old(len(l.errors)) ==> ncalls(l.next) == 3
+//@ ensures [C03] keeps-string-state: l.gotString == old(l.gotString)
+//@ ensures [C04] errors-only-grow: len(l.errors) >= old(len(l.errors))
+//@ ensures [C04] invalid-is-error: r0 == -1 && ncalls(l.next) < 3 ==> len(l.errors) > old(len(l.errors))
+
+//@ func (*lexer).scanEscape
+//@ props C03 C02 C04
+//@ modifies l.srcPos, l.lastCharLen, l.column, l.line, l.lastLineLen, l.errors, l.tokEnd, l.strBuf, l.gotString
+//@ ensures [C03] backspace: firstret[rune](l.next, 0) == 'b' && len(l.errors) == 0 ==> sameVal(l.strBuf, uninterp[strings.Builder]("builder_WriteRune", old(l.strBuf), rune(8)))
+//@ ensures [C03] form-feed: firstret[rune](l.next, 0) == 'f' && len(l.errors) == 0 ==> sameVal(l.strBuf, uninterp[strings.Builder]("builder_WriteRune", old(l.strBuf), rune(12)))
+//@ ensures [C03] newline: firstret[rune](l.next, 0) == 'n' && len(l.errors) == 0 ==> sameVal(l.strBuf, uninterp[strings.Builder]("builder_WriteRune", old(l.strBuf), rune(10)))
+//@ ensures [C03] carriage-return: firstret[rune](l.next, 0) == 'r' && len(l.errors) == 0 ==> sameVal(l.strBuf, uninterp[strings.Builder]("builder_WriteRune", old(l.strBuf), rune(13)))
+//@ ensures [C03] tab: firstret[rune](l.next, 0) == 't' && len(l.errors) == 0 ==> sameVal(l.strBuf, uninterp[strings.Builder]("builder_WriteRune", old(l.strBuf), rune(9)))
+//@ ensures [C03] vertical-tab: firstret[rune](l.next, 0) == 'v' && len(l.errors) == 0 ==> sameVal(l.strBuf, uninterp[strings.Builder]("builder_WriteRune", old(l.strBuf), rune(11)))
+//@ ensures [C03 C02] literal: firstret[rune](l.next, 0) >= 0 && firstret[rune](l.next, 0) != 'b' && firstret[rune](l.next, 0) != 'f' && firstret[rune](l.next, 0) != 'n' && firstret[rune](l.next, 0) != 'r' && firstret[rune](l.next, 0) != 't' && firstret[rune](l.next, 0) != 'v' && firstret[rune](l.next, 0) != 'x' && firstret[rune](l.next, 0) != 'u' && len(l.errors) == 0 ==> sameVal(l.strBuf, uninterp[strings.Builder]("builder_WriteRune", old(l.strBuf), firstret[rune](l.next, 0)))
+//@ ensures [C03] no-reset-without-error: len(l.errors) == 0 ==> l.gotString == old(l.gotString)
+//@ ensures [C04] dangling-backslash: firstret[rune](l.next, 0) == -1 ==> r0 == -1 && len(l.errors) > old(len(l.errors))
+//@ ensures [C04] errors-only-grow: len(l.errors) >= old(len(l.errors))
+//@ ensures [C04] stop-value: r0 < 0 ==> r0 == -1
+
+//@ func (*lexer).scanString
+//@ requires ret >= 0
+//@ props C03 C04
+//@ modifies l.srcPos, l.lastCharLen, l.column, l.line, l.lastLineLen, l.errors, l.tokEnd, l.strBuf, l.gotString
+//@ loop 1 invariant [C04] errors-grow: len(l.errors) >= old(len(l.errors))
+//@ ensures [C03] closed: r0 >= 0 ==> r0 == ret && l.gotString
+//@ ensures [C04] unterminated: r0 < 0 ==> r0 == -1 && len(l.errors) > 0
+//@ ensures [C04] errors-only-grow: len(l.errors) >= old(len(l.errors))
+
+//@ func (*lexer).scanComment
+//@ props C03 C04
+//@ modifies l.srcPos, l.lastCharLen, l.column, l.line, l.lastLineLen, l.errors, l.tokEnd
+//@ loop 1 invariant [C04] errors-grow: len(l.errors) >= old(len(l.errors))
+//@ ensures [C03] not-a-comment: ch != '*' ==> r0 == '/' && ncalls(l.next) == 0
+//@ ensures [C04] errors-only-grow: len(l.errors) >= old(len(l.errors))
+
+//@ func (*lexer).scanVariable
+//@ props C03 C04
+//@ modifies l.srcPos, l.lastCharLen, l.column, l.line, l.lastLineLen, l.errors, l.tokEnd, l.strBuf, l.gotString
+//@ loop 1 invariant [C04] errors-grow: len(l.errors) >= old(len(l.errors))
+//@ ensures [C03] quoted: firstret[rune](l.next, 0) == '"' ==> ncalls(l.scanString) == 1 && callarg[rune](l.scanString, "ret") == VARIABLE_P && r0 == callret[rune](l.scanString, 0) && r1 == callret[rune](l.scanString, 1)
+//@ ensures [C03] bare-dollar: firstret[rune](l.next, 0) != '"' && !isVariableRune(firstret[rune](l.next, 0)) ==> r0 == '$' && r1 == firstret[rune](l.next, 0) && ncalls(l.next) == 1
+//@ ensures [C03] named: firstret[rune](l.next, 0) != '"' && isVariableRune(firstret[rune](l.next, 0)) ==> r0 == VARIABLE_P && l.gotString && !isVariableRune(r1)
+//@ ensures [C04] errors-only-grow: len(l.errors) >= old(len(l.errors))
+
+//@ func (*lexer).scanIdent
+//@ props C03 C04
+//@ modifies l.srcPos, l.lastCharLen, l.column, l.line, l.lastLineLen, l.errors, l.tokEnd, l.strBuf, l.gotString
+//@ loop 1 invariant [C04] errors-grow: len(l.errors) >= old(len(l.errors))
+//@ ensures [C04] error-stops: len(l.errors) > 0 ==> r0 == -1
+//@ ensures [C03] token-from-text: len(l.errors) == 0 ==> l.gotString && r0 == identToken(uninterp[string]("builder_string", l.strBuf)) && !isIdentRune(r1, 1)
+//@ ensures [C04] errors-only-grow: len(l.errors) >= old(len(l.errors))
+
+//@ func (*lexer).scanNumber
+//@ props C03 C04
+//@ modifies l.srcPos, l.lastCharLen, l.column, l.line, l.lastLineLen, l.errors, l.tokEnd
+//@ ensures [C03] token-class: r0 == INT_P || r0 == NUMERIC_P || r0 == -1
+//@ ensures [C03] fraction-is-numeric: seenDot && r0 >= 0 ==> r0 == NUMERIC_P
+//@ ensures [C04] stop-is-error: r0 == -1 ==> len(l.errors) > old(len(l.errors)) && r1 == -1
+//@ ensures [C03] no-junk-follows: r0 >= 0 && r1 != '.' ==> !isIdentRune(r1, 0)
+//@ ensures [C04] errors-only-grow: len(l.errors) >= old(len(l.errors))
+
+//@ func (*lexer).tokenText
+//@ props C03 C04
+//@ modifies l.tokEnd
+//@ ensures [C03] string-token: l.tokPos >= 0 && l.gotString ==> r0 == uninterp[string]("builder_string", l.strBuf)
+//@ ensures [C03] none: l.tokPos < 0 ==> r0 == ""
